@@ -920,6 +920,9 @@ enum Verdict {
     Refused(bool),
     /// `UnknownIdentifier`: no scope the lookup reaches knows the name (sequences only)
     NoName,
+    /// the call is refused, and the type checker does not say how: a call in a method body of a struct template is reported
+    /// at the use of the template as "identifier .. is not expected to be a type" (sequences only)
+    Rejected,
     Panic(String),
     Other(String),
 }
@@ -933,6 +936,7 @@ fn show_verdict(v: &Verdict) -> String {
         Verdict::Refused(true) => "lvreq".into(),
         Verdict::Refused(false) => "mutreq".into(),
         Verdict::NoName => "noname".into(),
+        Verdict::Rejected => "rej".into(),
         Verdict::Panic(_) => "panic".into(),
         Verdict::Other(e) => format!("error:{}", e),
     }
@@ -1668,6 +1672,7 @@ impl Runner {
             Verdict::Refused(true) => "verdict:refused-lvalue-required",
             Verdict::Refused(false) => "verdict:refused-non-const-required",
             Verdict::NoName => "verdict:unknown-name",
+            Verdict::Rejected => "verdict:refused-without-a-reason",
             Verdict::Panic(_) => "verdict:panic",
             Verdict::Other(_) => "verdict:other-error",
         };
@@ -2313,7 +2318,14 @@ fn run_seq(items: &[Item], path: &SeqPath, compiles: &mut u64) -> Option<Result<
             }
             Ok(c) => {
                 include[k] = false;
-                out.push((k, SiteObs::V(seq_read_rejected(c, path))));
+                let mut v = seq_read_rejected(c, path);
+                // an error inside the instantiation of a struct template surfaces as an error about the template's name
+                let in_struct_template = matches!(&items[k], Item::Trigger(j, _)
+                    if items.iter().any(|x| matches!(x, Item::Helper(j2, _, _, true) if j2 == j)));
+                if in_struct_template && matches!(&v, Verdict::Other(e) if e.contains("is not expected to be a type")) {
+                    v = Verdict::Rejected;
+                }
+                out.push((k, SiteObs::V(v)));
             }
         }
     }
@@ -2421,6 +2433,7 @@ impl Runner {
                 Verdict::Unmatched => "seq-site:unmatched",
                 Verdict::Refused(_) => "seq-site:refused-output",
                 Verdict::NoName => "seq-site:unknown-name",
+                Verdict::Rejected => "seq-site:refused-in-a-struct-template",
                 Verdict::Panic(_) => "seq-site:panic",
                 Verdict::Other(_) => "seq-site:other-error",
             });
@@ -2430,7 +2443,7 @@ impl Runner {
             }
             let visible = visible_at(items, *k, mode, path);
             let Some(visible) = visible else {
-                if *v != Verdict::NoName {
+                if *v != Verdict::NoName && *v != Verdict::Rejected {
                     verdict = Err(format!("site {}: no candidate is visible at the call, but the verdict is `{}`", k, show_verdict(v)));
                 }
                 continue;
@@ -2451,6 +2464,20 @@ impl Runner {
                 continue;
             }
             let j = judge_set(&mut self.real, &visible, &args, &targs);
+            if *v == Verdict::Rejected {
+                // all that can be said: the call was not accepted
+                if j.exact.len() == 1 && !j.out_converted.contains(&j.exact[0]) && !j.out_const.contains(&j.exact[0]) {
+                    verdict = Err(format!("site {} (sees {:?}): candidate {} matches exactly but the call is refused", k, visible.iter().map(|c| c.id).collect::<Vec<_>>(), j.exact[0]));
+                } else if let Some(Verdict::Sel(id, _)) = self.reference(&visible, &args, &targs, path) {
+                    verdict = Err(format!(
+                        "site {} sees the candidates {:?} and is refused, but a program that declares exactly these and calls once selects {}",
+                        k,
+                        visible.iter().map(|c| c.id).collect::<Vec<_>>(),
+                        id
+                    ));
+                }
+                continue;
+            }
             if let Err(e) = oracle(&j, v) {
                 verdict = Err(format!("site {} (sees {:?}): {}", k, visible.iter().map(|c| c.id).collect::<Vec<_>>(), e));
                 continue;
